@@ -181,6 +181,24 @@ def runStep1 (s : RunSt) (line : String) : RunSt × String :=
   | ["dload"] =>
     if accepted s.dpols then ({ s with dloaded := true, dst := {} }, "ok")
     else ({ s with dloaded := false, dst := {} }, "refused:duplicate-name")
+  | "dburst" :: ws =>
+    match kv ws "url", kv ws "method", kvNat ws "t", kvNat ws "n", kvNat ws "par", parseHdrs (kvAll ws "h") with
+    | some u, some m, some t, some n, some par, some hs =>
+      if n < 1 || n > 1024 || par < 1 || par > 128 then (s, "bad-op") else
+      if !s.dloaded then (s, "no-config") else
+      -- n concurrent requests at one instant: every interleaving gives the same counts
+      let rec goD : Nat → DState → Nat → Nat → Nat → Option Int → DState × Nat × Nat × Nat × Option Int
+        | 0, st, np, nb, ne, stt => (st, np, nb, ne, stt)
+        | k + 1, st, np, nb, ne, stt =>
+          let (st', a, _) := dispatchStep capUnits st s.dpols (pctDec u) m hs t
+          match a with
+          | .pass => goD k st' (np + 1) nb ne stt
+          | .early c _ => goD k st' np (nb + 1) ne (stt <|> some c)
+          | .err => goD k st' np nb (ne + 1) stt
+      let (st', np, nb, ne, stt) := goD n s.dst 0 0 0 none
+      let stat := match stt with | some c => toString c | none => "-"
+      ({ s with dst := st' }, s!"passed={np} blocked={nb} err={ne} status={stat}")
+    | _, _, _, _, _, _ => (s, "bad-op")
   | "dreq" :: ws =>
     match kv ws "url", kv ws "method", kvNat ws "t", parseHdrs (kvAll ws "h") with
     | some u, some m, some t, some hs =>
@@ -287,6 +305,36 @@ def judgeStep1 (s : JudgeSt) (op out : String) : JudgeSt :=
     -- the IMPLEMENTATION's verdict on the configuration decides whether requests are judged: if it accepts two
     -- policies with one name, every policy must still keep its own count
     { s with dloaded := out == "ok", dhist := [], dAcctIdx := 0 }
+  | "dburst" :: ws =>
+    match kv ws "url", kv ws "method", kvNat ws "t", parseHdrs (kvAll ws "h") with
+    | some u, some m, some t, some hs =>
+      if !s.dloaded then s else
+      let url := pctDec u
+      let ch := chain s.dpols url m
+      let ows := words out
+      match kvNat ows "passed", kvNat ows "blocked", kvNat ows "err", kv ows "status" with
+      | some np, some nb, some ne, some stat =>
+        if ne != 0 then
+          -- a request that leaves the engine with a dispatch error is neither counted nor answered
+          { s with bad := s.bad <|> some s!"dispatch-error-on-concurrent-requests t={t} got={pctEnc out}" }
+        else
+        match throttlesOf s.dpols url m with
+        | [(i, r)] =>
+          -- only plain chains are generated for bursts (no setter / fixed response): per key the only sequential
+          -- explanation of the counts is "passes, then rejections"
+          if !(ch.all fun p => isTransparent p || (remedyOf p).isSome) then { s with dskip := true } else
+          let p : PReq := ⟨r, hs, t⟩
+          let rej : Answer := match stat.toInt? with | some c => .early c | none => .err "no-status"
+          if !((np == 0 || answerOk p .noop) && (nb == 0 || answerOk p rej)) then
+            { s with bad := s.bad <|> some s!"burst-answers-not-as-configured t={t} got={pctEnc out} want-status={effStatus r}" }
+          else
+            let mk (a : Answer) : List (Event PKey) := ((observe1P p a).map fun e =>
+              ({ e with key := ⟨e.key.code, ⟨s!"{i}#{e.key.spec.remedy}", e.key.spec.group⟩⟩ } : Event PKey)).toList
+            { s with dhist := (List.replicate nb (mk rej)).flatten ++ (List.replicate np (mk .noop)).flatten ++ s.dhist }
+        | [] => if nb == 0 then s else { s with bad := s.bad <|> some s!"burst-without-throttling-remedy-rejected t={t}" }
+        | _ => { s with dskip := true }
+      | _, _, _, _ => { s with bad := s.bad <|> some ("unparsable-answer:" ++ pctEnc out) }
+    | _, _, _, _ => s
   | "dreq" :: ws =>
     match kv ws "url", kv ws "method", kvNat ws "t", parseHdrs (kvAll ws "h") with
     | some u, some m, some t, some hs =>
